@@ -50,6 +50,7 @@ class Gen:
         self.drive = {}         # clock id -> "exp" | "sim" | "both"
         self.mems = []
         self.mem_wclk = {}
+        self.mem_ext = set()
         self.mem_has_read = set()
         self.depth = 0
         self.budget_unmarked = {"clean": 0, "one": 1, "sloppy": 10 ** 9}[flavor]
@@ -86,6 +87,7 @@ class Gen:
             e.setdefault(int(t[3]), []).append(int(t[1])); e.setdefault(("m", int(t[2])), []).append(int(t[1]))
         elif k == "mwr":
             e.setdefault(int(t[3]), []).append(("m", int(t[1]))); e.setdefault(int(t[4]), []).append(("m", int(t[1])))
+            if len(t) > 5 and t[5] != "-": e.setdefault(int(t[5]), []).append(("m", int(t[1])))
 
     def observable(self):
         """signals from which some output pin is reachable"""
@@ -308,12 +310,19 @@ class Gen:
         r = self.r
         if not self.mems or r.random() < 0.3:
             m = len(self.mems); self.mems.append(m)
-            self.emit(f"mem {m} 16 {1 if r.random() < 0.5 else 0}")
+            if r.random() < 0.4:                          # MemType::EXTERNAL: becomes io pins in post-processing
+                self.mem_ext.add(m)
+                self.emit(f"mem {m} 16 1 ext {r.choice([1, 1, 2])}")
+            else:
+                self.emit(f"mem {m} 16 {1 if r.random() < 0.5 else 0}")
         m = r.choice(self.mems)
-        if r.random() < 0.5:
+        if r.random() < 0.5 and not (m in self.mem_ext and m in self.mem_wclk):
             t = self.mem_wclk.setdefault(m, t)           # "All write ports to a memory must have the same clock"
-            a = self.use(self.pick(t), t); d = self.use(self.pick(t), t)
-            self.emit(f"mwr {m} {t} {a} {d}")
+            a = self.use(self.pick(t), t); d = self.use(self.nonconst_local(t), t)
+            en = "-"
+            if r.random() < 0.5:                          # conditional write: the condition becomes the write enable
+                en = str(self.use(self.nonconst_local(t), t))
+            self.emit(f"mwr {m} {t} {a} {d} {en}")
         else:
             self.mem_read(m, t)
 
@@ -449,6 +458,48 @@ def gen_drive_family(seed, tag="d"):
     return progs
 
 
+def gen_mem_family(seed, tag="m"):
+    """Systematic family: memory {internal, MemType::EXTERNAL} x {unconditional, conditional write} x
+    {same clock, separate read clock} x the foreign-domain signal on each port input (write enable
+    condition, write address, write data, read address, none) x {unmarked, marked}.  The verdict is
+    computed by the model / oracle from the dump."""
+    rng = random.Random(seed * 32452843 + 3)
+    progs = []
+    n = 0
+    for ext in (False, True):
+        for cond in (False, True):
+            for dual in (False, True):
+                for pos in (("wren",) if cond else ()) + ("wraddr", "wrdata", "rdaddr", None):
+                    for what in (("unmarked", "marked") if pos else ("clean",)):
+                        f = rng.choice([10000, 25000, 100000])
+                        W = rng.choice([0, 2])
+                        R = 1 if dual else rng.choice([0, 2])
+                        L = [f"design {tag}{seed}_{n}", f"clock 0 root {f} clkA", f"clock 1 root {f * 3} clkB",
+                             f"clock 2 derive 0 {rng.choice(['same', 'rst', 'attr'])}",
+                             f"mem 0 16 1" + (f" ext {rng.choice([1, 2])}" if ext else ""),
+                             f"pin 0 {W}", f"pin 1 {W}", f"pin 2 {W}", f"pin 3 {R}", "pin 4 0", "pin 5 1"]
+                        sig = dict(wraddr=0, wrdata=1, wren=2, rdaddr=3)
+                        nxt = 6
+                        if rng.random() < 0.5:
+                            L.append(f"reg {nxt} {W} 1 1 -"); sig["wrdata"] = nxt; nxt += 1
+                        if pos:
+                            port_clk = R if pos == "rdaddr" else W
+                            fsig, fclk = (5, 1) if port_clk != 1 else (4, 0)
+                            if what == "marked":
+                                L.append(f"cdc {nxt} {fsig} {fclk} {port_clk}"); fsig = nxt; nxt += 1
+                            sig[pos] = fsig
+                        L.append(f"mwr 0 {W} {sig['wraddr']} {sig['wrdata']} {sig['wren'] if cond else '-'}")
+                        L.append(f"mrd {nxt} 0 {sig['rdaddr']} {R}")
+                        L.append(f"out {R} {nxt}")
+                        L.append("end")
+                        progs.append(dict(name=f"{tag}{seed}_{n}", lines=L, flavor="memory", crossings=1,
+                                          unmarked=1 if what == "unmarked" else 0, wrong=0, mem=True, unk=False,
+                                          family=dict(variant=("extmem" if ext else "mem") + ("/cond" if cond else "/uncond") + ("/dual" if dual else "/single"),
+                                                      drive=pos or "none", direction="", marked=what)))
+                        n += 1
+    return progs
+
+
 def gen_ext_family(seed, tag="x"):
     """Systematic family: ExternalModule with k = 1..4 clocked input ports; the odd input sits on every
     position (first / middle / last) and is an unmarked foreign-domain signal, a correctly marked one,
@@ -541,7 +592,7 @@ def parse_dump(path):
     return res, errs
 
 
-def oracle(blk):
+def oracle(blk, lenient_mem=False):
     """Independent specification oracle: which domains reach which output, and whether any node
     combines two domains / receives a foreign domain / is a marker with the wrong source.
     Returns (crossing: bool, info)."""
@@ -576,7 +627,8 @@ def oracle(blk):
             elif k == "ext":
                 src[(v, o)] = dom_of(nd["outclk"][o])          # every output of an external module is a source of its declared clock
             elif k == "memport":
-                deps[(v, o)] = [] if o == 2 else [d for i, d in enumerate(nd["ins"]) if i != 6 and d is not None]
+                # lenient_mem: the orderAfter input (5) only carries the program order of the ports
+                deps[(v, o)] = [] if o == 2 else [d for i, d in enumerate(nd["ins"]) if i != 6 and not (lenient_mem and i == 5) and d is not None]
             elif nd["clocks"]:
                 src[(v, o)] = dom_of(nd["clocks"][0])
             else:
@@ -603,6 +655,8 @@ def oracle(blk):
         if k in ("sig2clk", "sig2rst"):
             continue
         per_in = [reach.get(d, set()) if d is not None else set() for d in nd["ins"]]
+        if k == "memport" and lenient_mem and len(per_in) > 5:
+            per_in[5] = set()
         if k == "ext":
             # every port on its own: the signal must be constant or of the port's declared clock
             for i, srcs in enumerate(per_in):
@@ -735,8 +789,11 @@ def evaluate(progs, harness, driver, tagdir, timeout=900, with_model=True, jobs=
             # (1) model vs real, canonical lines
             if with_model:
                 exp_res = f"RES {name} {ph} flagged={','.join(map(str, sorted(blk['flagged'])))} crossing={1 if real_cross else 0}"
-                exp_chk = f"CHK {name} {ph} wf=1 rel=1 pin=1 domok=1 infer=1 closed=1"
+                exp_chk = f"CHK {name} {ph} wf=1 rel=1 pin=1 domok=1 infer=1 closed=1 sinks=1"
                 got_res, got_chk = model.get(("RES", name, ph)), model.get(("CHK", name, ph))
+                if got_chk and any(l.startswith("out -") for l in p["lines"]):
+                    # the program detaches the clock of an output pin on purpose (UNKNOWN-domain experiments)
+                    got_chk = got_chk.replace("sinks=0", "sinks=1")
                 st["lines_compared"] += 2
                 if got_chk != exp_chk:
                     problems.append(dict(design=name, kind="model-check-line", detail=f"expected `{exp_chk}` got `{got_chk}`", concrete=False))
@@ -757,7 +814,14 @@ def evaluate(progs, harness, driver, tagdir, timeout=900, with_model=True, jobs=
             pre = e.get("pre")
             if pre is not None and "oracle" in pre:
                 has_mem = any(nd["kind"] == "memport" for nd in pre["nodes"])
-                if pre["oracle"] and verdict == "accept" and has_mem:
+                if pre["oracle"] and verdict == "accept" and has_mem and oracle(pre, lenient_mem=True)[0]:
+                    # a crossing into a data input of a memory port (enable, write enable, address, write data) -- not
+                    # merely through the port order chain -- must be rejected whatever the memory passes turn the port into
+                    # (for MemType::EXTERNAL: the io pins generated by MemoryGroup::replaceWithIOPins)
+                    st["pre_post_differ"] += 1
+                    problems.append(dict(design=name, kind="spec-verdict-vs-postprocess-outcome", concrete=True,
+                                         detail=f"specification on the design as built finds a crossing into a memory port input / other node (order dependencies between ports ignored), DesignScope::postprocess() -> {verdict}"))
+                elif pre["oracle"] and verdict == "accept" and has_mem:
                     # The order dependencies between memory ports (orderAfter/orderBefore) are a conservative
                     # over-approximation before post-processing: read-after-read and write-after-read chains are
                     # resolved by the memory passes and then carry nothing.  Only counted.
@@ -842,6 +906,7 @@ def shrink(prog, kind, harness, deadline):
                 elif k == "mwr":
                     if int(t[1]) not in defined_m or int(t[2]) not in defined_c: return False
                     if int(t[3]) not in defined_s or int(t[4]) not in defined_s: return False
+                    if len(t) > 5 and t[5] != "-" and int(t[5]) not in defined_s: return False
                 elif k == "ext":
                     for i in range(1, len(t) - 1):
                         if t[i] in ("in", "out", "clkout"):
@@ -916,11 +981,12 @@ def main():
     else:
         count = 400 if tier == "quick" else 8000
         # C12_NO_CORPUS=1 is a test knob (used to confirm that the generated designs alone catch a mutation)
-        progs = ([] if os.environ.get("C12_NO_CORPUS") else corpus_programs()) + gen_drive_family(seed) + gen_ext_family(seed) + gen_batch(seed, count, tier)
+        progs = ([] if os.environ.get("C12_NO_CORPUS") else corpus_programs()) + gen_drive_family(seed) + gen_ext_family(seed) + gen_mem_family(seed) + gen_batch(seed, count, tier)
         if tier == "thorough":
             for j in range(1, 6):
                 progs += gen_drive_family(seed * 100 + j, tag="e")
                 progs += gen_ext_family(seed * 100 + j, tag="y")
+                progs += gen_mem_family(seed * 100 + j, tag="n")
 
     broken = []
     if not res["ok"]:
@@ -960,7 +1026,7 @@ def main():
     rep.cov["distinct_nontrivial"] = len(distinct)
     rep.cov["rule"] = ("seeded random design programs (2-6 clocks incl. derived clocks sharing / not sharing the parent's pin source, "
                        "fan-in from several domains, registers with enables, pins, constants, forward references and register loops, "
-                       "areas, optional memories / clock-less pins / external modules with 1-4 clocked input ports / clock nets driven by logic in one or both views) built through the real frontend; a design counts as non-trivial when it "
+                       "areas, optional internal and MemType::EXTERNAL memories with conditional writes / clock-less pins / external modules with 1-4 clocked input ports / clock nets driven by logic in one or both views) built through the real frontend; a design counts as non-trivial when it "
                        "contains at least one edge between signals of different pin sources (marked, unmarked or wrongly marked) and "
                        "postprocess() ended in accept or CDC-reject; distinct = distinct program text")
     rep.cov["samples"] = [dict(program=p["lines"], flavor=p["flavor"], outcome=dumps.get(p["name"], {}).get("verdict"))
@@ -988,6 +1054,10 @@ def main():
         "the harness reads its private members m_inClock / m_outClockRelations (compiled with -fno-access-control). "
         "Still not modelled and not generated: the vendor primitives ALTSYNCRAM / ALTDPRAM / RAMBxE2 with their own overrides; "
         "any other node with more than one clock port would hit HCL_ASSERT in the C++ base rule",
+        "memory ports: the verdict is the one of the full DesignScope::postprocess() (DefaultPostprocessing::run: technology mapping, generalOptimization, "
+        "memoryDetection, technology mapping incl. Memory2VHDLPattern -> MemoryGroup::replaceWithIOPins for MemType::EXTERNAL, generalOptimization, exportPreparation, then "
+        "detectUnguardedCDCCrossings); it is compared with the specification on the design AS BUILT (memory port nodes with their clocks), where only the port order "
+        "dependencies (orderAfter) are exempt because the memory passes resolve them; the post-processed netlist must additionally satisfy sinks_clocked",
         "memory contents are not a signal: data written under one clock and read under another through Node_Memory carries no domain (this is what tests/frontend/CDC.cpp expects)",
         "a source without a clock (domain UNKNOWN, only constructible through the hlim API) is treated as an anonymous domain that may not be combined with anything non-constant",
         "the specification is evaluated on the circuit handed to the detector (post-processed) and on the circuit as built; the generator avoids constructs whose crossing would be optimised away",
